@@ -439,6 +439,10 @@ class ExprMixin:
                     raise PyRaise('ZeroDivisionError', ln, 'decimal division by zero')
                 return SDec(dec_div(x, y) if isinstance(op, ast.Div) else dec_mod(x, y))
             raise Unsupported(f'decimal {type(op).__name__}')
+        if isinstance(a, SSet) and isinstance(b, SSet) and isinstance(op, (ast.Sub, ast.BitOr, ast.BitAnd)):
+            # set difference / union / intersection on the membership arrays (no element sequence is known for the result)
+            f = {ast.Sub: z3.SetDifference, ast.BitOr: z3.SetUnion, ast.BitAnd: z3.SetIntersect}[type(op)]
+            return SSet(f(a.t, b.t))
         if isinstance(a, SStr) and isinstance(b, SStr) and isinstance(op, ast.Add):
             return SStr(z3.Concat(a.t, b.t))
         if isinstance(a, (SSeq, STuple)) and isinstance(b, (SSeq, STuple)) and isinstance(op, ast.Add):
